@@ -1133,6 +1133,17 @@ theorem step_inv {st : St} (hi : Inv st) (op : Op) : Inv (step st op).1 := by
     intro u hu huid
     have hrec := recInv_put_same (u := { u with secure := b }) hi.recs ⟨u, hu, rfl, rfl⟩
     exact setUser_inv hrec { u with secure := b } (hi.recs.names u hu)
+  | followNick id old new =>
+    simp only [step]
+    apply withUser_inv hi
+    intro u hu huid
+    split
+    · exact hi
+    · split
+      · have hrec := recInv_put_same (u := { u with auth := followFirst old new (pruneScan st.db.timeout st.now old u.auth) }) hi.recs ⟨u, hu, rfl, rfl⟩
+        exact setUser_inv hrec { u with auth := followFirst old new (pruneScan st.db.timeout st.now old u.auth) } (hi.recs.names u hu)
+      · have hrec := recInv_put_same (u := { u with auth := followAuth old new (pruneScan st.db.timeout st.now old u.auth) }) hi.recs ⟨u, hu, rfl, rfl⟩
+        exact setUser_inv hrec { u with auth := followAuth old new (pruneScan st.db.timeout st.now old u.auth) } (hi.recs.names u hu)
   | clearHosts id =>
     simp only [step]
     apply withUser_inv hi
@@ -1482,6 +1493,15 @@ theorem revOK_step {st : St} (h : RevOK st.hc) (op : Op) : RevOK (step st op).1.
     apply revOK_withUser h
     intro u
     dsimp only; (refine revOK_setUser ?_ _; exact h)
+  | followNick id old new =>
+    simp only [step]
+    apply revOK_withUser h
+    intro u
+    split
+    · exact h
+    · split
+      · (refine revOK_setUser ?_ _; exact h)
+      · (refine revOK_setUser ?_ _; exact h)
   | clearHosts id =>
     simp only [step]
     apply revOK_withUser h
